@@ -144,7 +144,8 @@ class ExprMixin:
         if n.attr in self.m.stable:
             sort = self.m.stable[n.attr]
             cls = self.m.stable_cls.get(n.attr)
-            return c.app(f"sattr_{n.attr}", [o.sort], sort, [o], cls)
+            fname = f"sattr_{n.attr}" if o.sort == REF else f"sattr_{n.attr}_{mangle(o.sort)}"
+            return c.app(fname, [o.sort], sort, [o], cls)
         f = c.fun(f"attr_{n.attr}", [o.sort, INT], OBJ)
         return T(OBJ, f"(|{f}| {o.s} {st.ver})")
 
@@ -704,6 +705,12 @@ class ExprMixin:
                 def binder(tag, s=v):
                     k = T(s.sort[1], f"|q_k{tag}|")
                     return [(k.s, s.sort[1])], f"(select {s.s} {k.s})", {target.id: k}
+                return "set", binder
+            if (v.sort[0] == "Set" and isinstance(target, ast.Tuple) and isinstance(v.sort[1], tuple) and v.sort[1][0] == "Tup"
+                    and len(target.elts) == len(v.sort[1]) - 1 and all(isinstance(t, ast.Name) for t in target.elts)):
+                def binder(tag, s=v):
+                    k = T(s.sort[1], f"|q_k{tag}|")
+                    return [(k.s, s.sort[1])], f"(select {s.s} {k.s})", {t.id: tup_get(k, j) for j, t in enumerate(target.elts)}
                 return "set", binder
             if v.sort[0] == "Seq":
                 def binder(tag, xs=v):
